@@ -95,7 +95,7 @@ pub mod prelude {
     impl From<X16> for X32 { fn from(a: X16) -> X32 { X32(5000 + a.0) } }
     pub fn m_x16<X: Leaf>(x: X) -> X16 { X16(7000 + x.id() as u32) }
     pub fn m_x32<X: Leaf>(x: X) -> X32 { X32(8000 + x.id() as u32) }
-    pub static LS: [[L; 3]; 8] = [[L(0), L(1), L(2)]; 8];
+    pub static LS: [[L; 3]; 16] = [[L(0), L(1), L(2)]; 16];
     pub static CALLS: core::sync::atomic::AtomicUsize = core::sync::atomic::AtomicUsize::new(0);
     pub fn calls_reset() { CALLS.store(0, core::sync::atomic::Ordering::SeqCst); }
     pub fn calls() -> usize { CALLS.load(core::sync::atomic::Ordering::SeqCst) }
@@ -353,21 +353,31 @@ class TypeDef:
                               "fields": [fj(f) for f in v.fields]} for v in self.variants]}
 
 
-FIELD_NAMES = ["a", "b", "c", "x", "y", "z", "left", "right", "key", "val"]
-VARIANT_NAMES = ["A", "B", "C", "D", "E"]
+FIELD_NAMES = ["a", "b", "c", "x", "y", "z", "left", "right", "key", "val",
+               # names that look like identifiers of the generated code, start with `_`, contain digits, or are long
+               "_x", "x1", "_0", "__0", "other", "state", "f", "source", "_s_a", "v_a", "k2",
+               "long_field_name_with_many_characters_0123456789"]
+VARIANT_NAMES = ["A", "B", "C", "D", "E", "V6", "V7", "V8", "V9", "Va", "Vb", "Vc"]
 
 
 def shapes_for(rng, kind, max_fields, max_variants, exhaustive_small=None):
     """Draw the skeleton (variants, shapes, field counts)."""
+    def width():
+        # now and then a wide shape: two-digit tuple indices, many named fields
+        if max_fields >= 4 and rng.random() < 0.06:
+            return rng.randint(max_fields + 1, 12)
+        return rng.randint(0 if rng.random() < 0.1 else 1, max_fields)
     if kind == "struct":
         shape = rng.choice(["unit", "tuple", "named", "tuple", "named"])
-        n = 0 if shape == "unit" else rng.randint(0 if rng.random() < 0.1 else 1, max_fields)
+        n = 0 if shape == "unit" else width()
         return [(None, shape, n)]
     nv = rng.randint(0 if rng.random() < 0.05 else 1, max_variants)
+    if max_variants >= 3 and rng.random() < 0.04:
+        nv = rng.randint(max_variants + 1, 11)       # many variants
     out = []
     for i in range(nv):
         shape = rng.choice(["unit", "tuple", "named", "tuple", "named"])
-        n = 0 if shape == "unit" else rng.randint(0 if rng.random() < 0.1 else 1, max_fields)
+        n = 0 if shape == "unit" else width()
         out.append((VARIANT_NAMES[i], shape, n))
     return out
 
@@ -468,6 +478,11 @@ def finalize_attrs(rng, td, noise=()):
             td.traits.insert(rng.randrange(len(td.traits) + 1), t)
     for v in td.variants:
         for f in v.fields:
+            # the same type written differently (parenthesised, by path): irrelevant to what the impls do
+            if getattr(td, "type_spelling", False) and not hasattr(f, "ty_src") and re.match(r"^[A-Za-z0-9]+$", f.ty) and rng.random() < 0.12:
+                prim = f.ty in ("bool", "char", "u8", "u16", "u32", "u64", "i8", "i16", "i32", "i64", "usize", "isize", "f32", "f64")
+                f.ty_src = rng.choice(["(%s)" % f.ty, ("::core::primitive::%s" if prim else "super::prelude::%s") % f.ty,
+                                       ("::core::primitive::%s" if prim else "self::%s") % f.ty, "((%s))" % f.ty])
             metas = list(getattr(f, "metas", []))
             for t in noise:
                 m = noise_field_meta(rng, t, f, v.shape)
